@@ -132,7 +132,7 @@ ADDED = {
     "C05": "Plus signed-header lists as multisets (names repeated, every entry doubled, a name not sent) x 64 requirement sets x 15 presence sets x every signed subset, judged in the direction the property states; and 256 requirement sets with overlapping declarations (a name under a declared prefix, one name in two categories) x presence subsets x signed subsets. A form POST signed correctly under each of the 4 readings (folded or not, S3 or normalised path) x the server under each of the 4 option sets x 64 requirement sets x every signed subset x carrier. Every second case repeats each header as a query parameter of the same name and value. A header <prefix><c>[tag] for every header-name character c (51), unsigned and signed, under two declared prefixes. A sorted signed list of 7 names holding a near-miss of a required name (10 kinds) with or without the name itself. An unsigned mandatory header together with a defect later rules look at (malformed date, four-part credential, foreign scope, expired date): still refused as a signature mismatch.",
     "C07": "Three further request shapes carry the presented signature twice (repeated X-Amz-Signature, repeated Signature= field, stray X-Amz-Signature next to header authentication); the refusal is also traced on an authenticator assembled through the unstable builder; every traced child starts after one acceptance and 14 refusals for the same key. Three more request shapes (Host with a port; token and 12 more signed headers; folded form behind an absolute target). The refusal is also traced while another validation of the very same request (correctly signed, or a wrong guess right up to its last character) is suspended in its key provider's future. Three more traced requests whose nonce makes the expected signature begin with '00', end in '00' or begin with 'ff'. Pairs of wrong characters a multiple of 8 positions apart that differ from the right ones by the same bit mask. Two traced requests with a millisecond timestamp whose guesses are built around the signature that is right for a near-miss of the string to sign.",
     "C19": "Also with 0..9 unknown fields in front of and 0..300 between the two occurrences of a repeated Authorization parameter; repeated X-Amz-* parameters with either occurrence's name spelled with escapes. A first token of 4..64 KiB; first Authorization / date header padded by 8193 / 70000 bytes. Each X-Amz-* parameter twice among 10 .. 1000 (thorough every count 0 .. 300, up to 2000) other parameters in four layouts. The last occurrence of each parameter between a field that opens a quoted value and one that closes it (4 patterns). Two session tokens against a key store that knows the key under one of them only and answers the other with each of 14 error kinds: the first token's answer is final. Repeated query parameters also with empty (and, for X-Amz-Signature, bare) first occurrences: the empty first one counts.",
-    "C02": "Header sets include an HTTP-date or stale ISO Date header, Expires, X-Amz-Expires and Content-Length next to X-Amz-Date, and seven names that are prefixes of one another. 15 secrets of special shape (beginning with 'AWS4' / 'aws4_request', one character, blanks, '/', '+', '=', a line end, non-ASCII, 100 characters) x carrier x token. 11 values containing literal, unescaped '=' in the URL and in a folded form body, both spellings, both carriers.",
+    "C02": "Header sets include an HTTP-date or stale ISO Date header, Expires, X-Amz-Expires and Content-Length next to X-Amz-Date, and seven names that are prefixes of one another. 15 secrets of special shape (beginning with 'AWS4' / 'aws4_request', one character, blanks, '/', '+', '=', a line end, non-ASCII, 100 characters) x carrier x token. 11 values containing literal, unescaped '=' in the URL and in a folded form body, both spellings, both carriers. Every value of every calendar field as the request date (every day of 2015-2016, every hour / minute / second, every year 1970..2100) x 2 renderings x carrier.",
     "C06": "Secret lengths 0..1100 and around 2^16 and 2^20 for all nine capacities. Plus every sequence of 1..3 (thorough 4) derivations on one thread over 12 secrets that are prefixes / NUL-extensions / case variants of one another x 2 dates, each judged alone. Fills beginning with the literals 'AWS4' / 'aws4_request'. Every AWS region code and pseudo-region (62) x every service signing name (70) x 2 secrets. Regions and services made of an ASCII run of every length 0..140 followed by 2-, 3- and 4-byte characters.",
     "C08": "Plus 45 request targets of every form (origin, absolute, authority, asterisk, empty) x form bodies x content types x all four option sets, and every empty / one-byte / two-byte value of Content-Type parameters and Authorization fields; server clocks and request dates at the edges of the time types. SignedHeaders lists of 10..104 entries differing in case only, in structured arrangements, rotations and fixed shuffles. Authorization headers made of every sequence of up to 4 (5) fields over ten kinds, with the logger formatting. The child runs under a 12 GiB address-space limit and a wall-clock limit (unbounded allocation and a case that never returns are violations, not machine failures). Requests with 24574 / 24575 / 24576 distinct header names (the most http admits) and 32700 values of one name, plain and as folded form POSTs with Content-Length. An ASCII run of every length 0..300 followed by 2-, 3- and 4-byte characters in each of 11 text inputs, once plausible and once made to be refused. The request-target x form-body sweep under HTTP/1.0, 1.1, 2 and 3, with and without a Host header. Clipped-text alignment: ASCII runs of every length 0..300 and within 24 of each power of two 512..65536 followed by bytes >= 0x80 / raw UTF-8, in 8 positions of the authentication headers, counted from the start of the text and of the whole header value.",
     "C09": "Plus paths behind a first segment padded to 47 lengths (0..5000 bytes) canonicalised in both modes back to back in both orders, and every ordered pair over 78 related (path, mode) symbols on one thread; first segments of 10 000 .. 200 000 bytes (plain, to-be-escaped, escaped) followed by dot-segment tails; the end-to-end path sweep also with folded form bodies. 11 methods x 5 request targets ('*' among them). 8 paths whose normal form differs between the modes x both modes x the server configured for every AWS region (62) x service signing name (70, the S3 family included) x carrier. Climbing, plain and relative paths with an ASCII run of every length 0..300 followed by 2-, 3- and 4-byte characters, both modes. Every pair of adjacent escapes %XX%YY (65 536) inside a segment and as a segment, both modes. Every two and three letters of the segment alphabet written together as one segment, alone / last / in the middle, both modes. 8 dot-segment tails behind 0 .. 300, ~512, 1000, ~4096 and 10 000 kept segments, and a climb back over all of them, both modes.",
